@@ -16,7 +16,7 @@ from pvx.loader import load, source_of, MODULES
 
 MANIFEST = dict(
     category="proof",
-    technique="frame / ownership obligations from a flow-sensitive freshness analysis over the real AST of all ten modules (one obligation per in-place mutation site; private helpers are summarised and charged to their callers, so extracting or inlining a helper does not change a verdict; stores on self outside the documented state writers are reported as undecided, not as violations), the bound check_random_state must seed every integer type alike, static scan of determinism sources and of the table schemas at the return sites; run-time frame / call-twice / reordered-call / argument-form contract on the real functions as bounded stand-in; Bounded stand-ins shared by all properties (labelled bounded, never counted as proved): the argument-form battery of the modules under contract (batches of 1 and 1200 rows, integer-typed values, labels / columns in other orders, extra labels); where the frame analysis finds state that outlives a call (a cache, a memo) the frame obligation becomes a dynamic purity contract against pristine process states; names the proofs replace by scipy contracts are checked to be bound to the library's functions (else a differential test).",
+    technique="frame / ownership obligations from a flow-sensitive freshness analysis over the real AST of all ten modules (one obligation per in-place mutation site; private helpers are summarised and charged to their callers, so extracting or inlining a helper does not change a verdict; stores on self outside the documented state writers are reported as undecided, not as violations), the bound check_random_state must seed every integer type alike, static scan of determinism sources and of the table schemas at the return sites; run-time frame / call-twice / reordered-call / argument-form contract on the real functions as bounded stand-in (including: the caller owns what a call returns -- overwriting a result in place must not change what the next call with equal inputs returns; single-point forms of the leaf functions); a memoising decorator counts as state that outlives a call; Bounded stand-ins shared by all properties (labelled bounded, never counted as proved): the argument-form battery of the modules under contract (batches of 1 and 1200 rows, integer-typed values, labels / columns in other orders, extra labels); where the frame analysis finds state that outlives a call (a cache, a memo) the frame obligation becomes a dynamic purity contract against pristine process states; names the proofs replace by scipy contracts are checked to be bound to the library's functions (else a differential test).",
     text="For every function and method of the ten modules, each in-place mutation site found in the AST (item / attribute stores, augmented assignments, mutating method calls, out=, overwrite_*=, inplace=) is an obligation that its target is fresh -- allocated in that call and neither an alias / view of a parameter nor module- or class-level state -- or the object's own documented state (Integrator buffers, EstimationModel.transform/bias via reset/update, Parameters.data_frame/rng, Turntable script); no function reads the global numpy RNG, the clock, the environment or iterates a set, and every random draw flows from check_random_state(rng); the column sets written at the table-returning sites are the documented constants. This is a static proof over all inputs under the stated aliasing rules (pandas >= 3 copy-on-write for selections; external calls non-mutating unless flagged by keyword). Equality of scalar / stacked / list / table forms, bit-identical repetition with equal seeds and independence of call order are run-time checks on generated inputs (bounded), complemented by the symbolic 'stacked == single' obligations of C16, C17, C04.",
     note="static analysis is type-less: pessimistic for numpy slicing (view), optimistic for label selections (pandas copy-on-write) and for results of calls (fresh); scipy / numpy / pandas calls are assumed non-mutating unless an out= / overwrite_*= / inplace= keyword says otherwise; the run-time part states its bound.",
 )
